@@ -321,6 +321,17 @@ def one_run(spec, device, fault, answer=None, line_fault=None):
                     _ = result.dynamics.dt
                     if result.times is not None:
                         _ = len(result.times)
+                        # as many frame times as frames, each the time stored with its frame (every one of them can be loaded)
+                        import h5py as _h5
+
+                        if getattr(result, "path", None) and os.path.exists(result.path):
+                            with _h5.File(result.path, "r") as f_:
+                                ft_ = [float(f_["data"][k_].attrs["time"]) for k_ in sorted(f_["data"].keys(), key=int)]
+                            C["partial_solution_times_checks"] = C.get("partial_solution_times_checks", 0) + 1
+                            got_ = [float(x) for x in np.asarray(result.times)]
+                            if len(got_) != len(ft_) or not np.allclose(got_, ft_, rtol=1e-12, atol=0):
+                                viol("partial_solution_times_ne_frames", "partial_solution_times_ne_frames",
+                                     {"times_reported": len(got_), "frames_in_file": len(ft_), "last_reported": got_[-2:], "last_in_file": ft_[-2:]})
                 except Exception as exc:
                     viol("partial_solution_unusable", "partial_solution_unusable", {"error": repr(exc)[:200]})
     else:
